@@ -68,11 +68,12 @@ impl Ctx {
 // ---------------------------------------------------------------------------------------------
 
 /// op code of a task: 1000 + 2*priority + stealable + 10000*behaviour
-/// behaviour 0 = returns at once, 1 = yields once, 2 = sleeps 1 ms, 3 = returns Err, 4 = yields 3 times
+/// behaviour 0 = returns at once, 1 = yields once, 2 = sleeps 1 ms, 3 = returns Err, 4 = yields 3 times,
+/// 5 = submits a child task (id = n + own id) to the same executor from inside the worker
 fn code_prio(c: i64) -> u8 { (((c % 10000) - 1000) / 2) as u8 }
 fn code_steal(c: i64) -> bool { ((c % 10000) - 1000) % 2 == 1 }
 fn code_beh(c: i64) -> u8 { (c / 10000) as u8 }
-fn is_task_code(c: i64) -> bool { c % 10000 >= 1000 && c % 10000 < 1512 && c >= 0 && c < 50000 }
+fn is_task_code(c: i64) -> bool { c % 10000 >= 1000 && c % 10000 < 1512 && c >= 0 && c < 60000 }
 
 struct CountTask {
     id: usize,
@@ -80,6 +81,8 @@ struct CountTask {
     steal: bool,
     beh: u8,
     counters: Arc<Vec<AtomicU32>>,
+    /// for behaviour 5: the executor, the number of parent tasks, and the child's submit outcome (1 accepted, 2 rejected)
+    nest: Option<(Arc<WorkStealingExecutor>, usize, Arc<Vec<AtomicU32>>)>,
 }
 impl Task for CountTask {
     fn execute(self: Box<Self>) -> Pin<Box<dyn Future<Output = ZResult<()>> + Send>> {
@@ -89,6 +92,13 @@ impl Task for CountTask {
                 2 => tokio::time::sleep(Duration::from_millis(1)).await,
                 4 => { for _ in 0..3 { tokio::task::yield_now().await; } }
                 _ => {}
+            }
+            if self.beh == 5 {
+                if let Some((ex, n, child)) = &self.nest {
+                    let t = CountTask { id: n + self.id, prio: self.prio, steal: self.steal, beh: 0, counters: self.counters.clone(), nest: None };
+                    let ok = ex.submit(Box::new(t)).is_ok();
+                    child[self.id].store(if ok { 1 } else { 2 }, Ordering::SeqCst);
+                }
             }
             self.counters[self.id].fetch_add(1, Ordering::SeqCst);
             if self.beh == 3 { Err(ZiporaError::configuration("task failed")) } else { Ok(()) }
@@ -100,7 +110,7 @@ impl Task for CountTask {
     fn estimated_duration(&self) -> Duration { Duration::from_nanos(self.id as u64) }
 }
 fn mk_task(id: usize, code: i64, counters: &Arc<Vec<AtomicU32>>) -> Box<dyn Task> {
-    Box::new(CountTask { id, prio: code_prio(code), steal: code_steal(code), beh: code_beh(code), counters: counters.clone() })
+    Box::new(CountTask { id, prio: code_prio(code), steal: code_steal(code), beh: code_beh(code), counters: counters.clone(), nest: None })
 }
 fn task_id(t: &Box<dyn Task>) -> i64 { t.estimated_duration().as_nanos() as i64 }
 
@@ -112,7 +122,7 @@ fn rand_code(r: &mut Rng, prio_mix: u64, beh_mix: bool) -> i64 {
         _ => *r.pick(&[0u64, 1, 2, 127, 254, 255]),
     };
     let steal = if r.chance(3, 4) { 1 } else { 0 };
-    let beh = if beh_mix { *r.pick(&[0u64, 0, 0, 1, 2, 3, 4]) } else { 0 };
+    let beh = if beh_mix { *r.pick(&[0u64, 0, 0, 1, 2, 3, 4, 5]) } else { 0 };
     (1000 + 2 * prio + steal + 10000 * beh) as i64
 }
 
@@ -236,7 +246,9 @@ struct ExecOutcome {
 /// mode 1: let the workers go idle first, then submit; mode 2: idle first and yield between submissions
 async fn exec_body(nw: usize, cap: usize, mode: u64, codes: Vec<i64>) -> ExecOutcome {
     let n = codes.len();
-    let counters: Arc<Vec<AtomicU32>> = Arc::new((0..n + 1).map(|_| AtomicU32::new(0)).collect());
+    // ids 0..n are the submitted tasks, n..2n the children that behaviour-5 tasks submit from inside a worker
+    let counters: Arc<Vec<AtomicU32>> = Arc::new((0..2 * n + 1).map(|_| AtomicU32::new(0)).collect());
+    let child: Arc<Vec<AtomicU32>> = Arc::new((0..n + 1).map(|_| AtomicU32::new(0)).collect());
     let mut out = ExecOutcome { accept: vec![], queued_after_submit: 0, idle_after_submit: false, counts: vec![], stalled: false,
                                 idle_reached: false, total_executed: 0, queued_end: 0, err: None };
     let ex = match WorkStealingExecutor::new(nw, cap) {
@@ -245,20 +257,33 @@ async fn exec_body(nw: usize, cap: usize, mode: u64, codes: Vec<i64>) -> ExecOut
     };
     if mode >= 1 { tokio::time::sleep(Duration::from_millis(3)).await; }
     for (i, &c) in codes.iter().enumerate() {
-        out.accept.push(ex.submit(mk_task(i, c, &counters)).is_ok());
+        let t = CountTask { id: i, prio: code_prio(c), steal: code_steal(c), beh: code_beh(c), counters: counters.clone(),
+                            nest: if code_beh(c) == 5 { Some((ex.clone(), n, child.clone())) } else { None } };
+        out.accept.push(ex.submit(Box::new(t)).is_ok());
         if mode == 2 && i % 3 == 2 { tokio::task::yield_now().await; }
     }
     out.queued_after_submit = ex.total_queued();
     out.idle_after_submit = ex.is_idle();
-    let want: Vec<usize> = (0..n).filter(|&i| out.accept[i]).collect();
-    let done = |c: &Arc<Vec<AtomicU32>>| want.iter().filter(|&&i| c[i].load(Ordering::SeqCst) >= 1).count();
-    let mut last = done(&counters);
+    let accept0 = out.accept.clone();
+    // outstanding = accepted tasks that have not run yet + accepted children that have not run yet
+    let outstanding = |c: &Arc<Vec<AtomicU32>>| -> (usize, u64) {
+        let mut o = 0usize;
+        let mut progress = 0u64;
+        for i in 0..n {
+            let ran = c[i].load(Ordering::SeqCst);
+            progress += ran as u64;
+            if accept0[i] && ran == 0 { o += 1; }
+            if child[i].load(Ordering::SeqCst) == 1 { let r2 = c[n + i].load(Ordering::SeqCst); progress += r2 as u64; if r2 == 0 { o += 1; } }
+        }
+        (o, progress)
+    };
+    let mut last = outstanding(&counters).1;
     let mut last_change = Instant::now();
     let mut polls_since = 0u64;
     loop {
-        let d = done(&counters);
-        if d == want.len() { break; }
-        if d != last { last = d; last_change = Instant::now(); polls_since = 0; }
+        let (o, p) = outstanding(&counters);
+        if o == 0 { break; }
+        if p != last { last = p; last_change = Instant::now(); polls_since = 0; }
         polls_since += 1;
         if last_change.elapsed() > Duration::from_millis(STALL_MS) && polls_since > 100 { out.stalled = true; break; }
         tokio::time::sleep(Duration::from_micros(300)).await;
@@ -271,7 +296,8 @@ async fn exec_body(nw: usize, cap: usize, mode: u64, codes: Vec<i64>) -> ExecOut
     }
     // leave room for a second execution of some task to show up
     tokio::time::sleep(Duration::from_millis(2)).await;
-    out.counts = (0..n).map(|i| counters[i].load(Ordering::SeqCst)).collect();
+    for i in 0..n { out.accept.push(child[i].load(Ordering::SeqCst) == 1); }
+    out.counts = (0..2 * n).map(|i| counters[i].load(Ordering::SeqCst)).collect();
     out.total_executed = ex.stats().total_executed;
     out.queued_end = ex.total_queued();
     let _ = ex.shutdown().await;
@@ -293,7 +319,7 @@ fn exec_case(cx: &mut Ctx, nw: usize, cap: usize, rt: usize, mode: u64, codes: &
             if let Some(e) = &o.err { cx.sum.fail(&cell, None, case, e); return; }
             if rt == 0 && mode == 0 {
                 // deterministic: the workers have not been polled while we submitted
-                let mut obs: Vec<i64> = o.accept.iter().map(|&b| if b { 1 } else { 0 }).collect();
+                let mut obs: Vec<i64> = o.accept[..codes.len()].iter().map(|&b| if b { 1 } else { 0 }).collect();
                 obs.push(o.queued_after_submit as i64);
                 obs.push(if o.idle_after_submit { 1 } else { 0 });
                 let stripped: Vec<i64> = codes.iter().map(|&c| c % 10000).collect();
@@ -303,7 +329,7 @@ fn exec_case(cx: &mut Ctx, nw: usize, cap: usize, rt: usize, mode: u64, codes: &
                 cx.sum.eval("WorkStealingExecutor::submit", &format!("s {} {} {:?}", nw, cap, stripped), codes.len() > cap);
                 cx.coq(1, nw as u64, cap as u64, &stripped, &obs, &cj, force);
             }
-            let n = codes.len();
+            let n = o.accept.len(); // the submitted tasks followed by the children of behaviour-5 tasks
             let accepted = o.accept.iter().filter(|&&b| b).count();
             let never: Vec<usize> = (0..n).filter(|&i| o.accept[i] && o.counts[i] == 0).collect();
             let twice: Vec<usize> = (0..n).filter(|&i| o.counts[i] > 1).collect();
